@@ -1,4 +1,4 @@
 From LV Require Import Base.Buf Expand.ExpandModel.
 Require Extraction.
 Require Import ExtrOcamlBasic.
-Extraction "c10_model.ml" num_anchor shell_expand getenv_of get_var put_var take_str CB cstr.
+Extraction "c10_model.ml" num_anchor shell_expand getenv_of exec_world dir_world get_var put_var take_str CB cstr.
